@@ -1,14 +1,645 @@
-"""symbolic strings (placeholder; filled in by the string layer)."""
+"""Symbolic strings: a sequence of concrete characters and symbolic code points of CONCRETE
+length.  Every predicate on a symbolic character is a solver decision (fork); a string whose
+characters are all concrete is always returned as a plain Python str/bytes, so only the pieces
+that actually contain symbolic characters travel as SStr."""
+import builtins
+import string as _string
+import numpy as np
+import z3
+
+from . import core
+from .core import B, Z, R, BV, Sym, Unsupported
+
 NOT_HANDLED = object()
+
+WHITESPACE = (9, 10, 11, 12, 13, 28, 29, 30, 31, 32)      # str.isspace() within ASCII
+
+
+def _is_sym(c):
+    return isinstance(c, z3.ExprRef)
+
+
+def _code(c):
+    return c if _is_sym(c) else z3.IntVal(ord(c))
 
 
 class SStr(object):
-    is_bytes = False
+    __slots__ = ('items', 'is_bytes')
+
+    def __init__(self, items, is_bytes=False):
+        self.items = tuple(items)
+        self.is_bytes = is_bytes
+
+    # ------------------------------------------------------------ construction helpers
+    @staticmethod
+    def mk(items, is_bytes=False):
+        items = tuple(items)
+        if all(not _is_sym(c) for c in items):
+            s = ''.join(items)
+            return s.encode('latin-1') if is_bytes else s
+        return SStr(items, is_bytes)
+
+    @staticmethod
+    def lift(x):
+        if isinstance(x, SStr):
+            return x
+        if isinstance(x, str):
+            return SStr(tuple(x), False)
+        if isinstance(x, (bytes, np.bytes_)):
+            return SStr(tuple(bytes(x).decode('latin-1')), True)
+        return None
+
+    def concrete(self):
+        """fork over the feasible values of every symbolic character -> python str"""
+        out = []
+        for c in self.items:
+            out.append(chr(core.ctx().concretize(c)) if _is_sym(c) else c)
+        s = ''.join(out)
+        return s.encode('latin-1') if self.is_bytes else s
+
+    def has_sym(self):
+        return any(_is_sym(c) for c in self.items)
+
+    # ------------------------------------------------------------ basics
+    def __len__(self):
+        return len(self.items)
+
+    def __iter__(self):
+        for c in self.items:
+            yield SStr.mk((c,), self.is_bytes)
+
+    def __getitem__(self, idx):
+        if isinstance(idx, (Z, BV)):
+            idx = int(idx)
+        if isinstance(idx, slice):
+            return SStr.mk(self.items[idx], self.is_bytes)
+        return SStr.mk((self.items[idx],), self.is_bytes)
+
+    def __add__(self, o):
+        o2 = SStr.lift(o)
+        if o2 is None:
+            if isinstance(o, (Z, R, BV, B)):
+                raise TypeError('can only concatenate str (not "number") to str')
+            return NotImplemented
+        return SStr.mk(self.items + o2.items, self.is_bytes)
+
+    def __radd__(self, o):
+        o2 = SStr.lift(o)
+        if o2 is None:
+            return NotImplemented
+        return SStr.mk(o2.items + self.items, self.is_bytes)
+
+    def __mul__(self, n):
+        return SStr.mk(self.items * int(n), self.is_bytes)
+
+    def eq_term(self, o):
+        o2 = SStr.lift(o)
+        if o2 is None or len(o2.items) != len(self.items):
+            return z3.BoolVal(False)
+        conj = []
+        for a, b in zip(self.items, o2.items):
+            if _is_sym(a) or _is_sym(b):
+                conj.append(_code(a) == _code(b))
+            elif a != b:
+                return z3.BoolVal(False)
+        return z3.And(conj) if conj else z3.BoolVal(True)
+
+    def __eq__(self, o):
+        if SStr.lift(o) is None:
+            return B(False)
+        t = z3.simplify(self.eq_term(o))
+        if z3.is_true(t):
+            return B(True)
+        if z3.is_false(t):
+            return B(False)
+        return B(t)
+
+    def __ne__(self, o):
+        return ~self.__eq__(o)
+
+    __hash__ = None
+
+    def __bool__(self):
+        return len(self.items) > 0
+
+    def __repr__(self):
+        return 'SStr<%s>' % ''.join(c if not _is_sym(c) else '·' for c in self.items)
+
+    def __str__(self):
+        raise Unsupported('builtin str() of a symbolic string (silent concretisation refused)')
+
+    def __format__(self, spec):
+        raise Unsupported('builtin format() of a symbolic string')
+
+    def __contains__(self, sub):
+        return self.find(sub) >= 0
+
+    def __lt__(self, o):
+        raise Unsupported('ordering of symbolic strings')
+
+    __gt__ = __le__ = __ge__ = __lt__
+
+    # ------------------------------------------------------------ character classes
+    @staticmethod
+    def char_eq(c, lit):
+        """c == lit (lit a concrete 1-char str) -> python bool (may fork)"""
+        if not _is_sym(c):
+            return c == lit
+        return builtins.bool(B(c == ord(lit)))
+
+    @staticmethod
+    def char_in(c, codes):
+        if not _is_sym(c):
+            return ord(c) in codes
+        return builtins.bool(B(z3.Or([c == k for k in codes])))
+
+    @staticmethod
+    def is_space(c):
+        if not _is_sym(c):
+            return c.isspace()
+        return SStr.char_in(c, WHITESPACE)
+
+    # ------------------------------------------------------------ searching
+    def _match_at(self, pos, sub):
+        if pos + len(sub.items) > len(self.items):
+            return False
+        for k, s in enumerate(sub.items):
+            a = self.items[pos + k]
+            if _is_sym(a) or _is_sym(s):
+                if not builtins.bool(B(_code(a) == _code(s))):
+                    return False
+            elif a != s:
+                return False
+        return True
+
+    def find(self, sub, start=0, end=None):
+        sub = SStr.lift(sub)
+        n = len(self.items) if end is None else min(end, len(self.items))
+        for i in range(start, n - len(sub.items) + 1):
+            if self._match_at(i, sub):
+                return i
+        return -1
+
+    def rfind(self, sub, start=0, end=None):
+        sub = SStr.lift(sub)
+        n = len(self.items) if end is None else min(end, len(self.items))
+        for i in range(n - len(sub.items), start - 1, -1):
+            if self._match_at(i, sub):
+                return i
+        return -1
+
+    def index(self, sub, *a):
+        r = self.find(sub, *a)
+        if r < 0:
+            raise ValueError('substring not found')
+        return r
+
+    def count(self, sub):
+        sub = SStr.lift(sub)
+        n, i = 0, 0
+        while i <= len(self.items) - len(sub.items):
+            if self._match_at(i, sub):
+                n += 1
+                i += max(1, len(sub.items))
+            else:
+                i += 1
+        return n
+
+    def startswith(self, pre):
+        pre = SStr.lift(pre)
+        return self._match_at(0, pre)
+
+    def endswith(self, suf):
+        suf = SStr.lift(suf)
+        if len(suf.items) > len(self.items):
+            return False
+        return self._match_at(len(self.items) - len(suf.items), suf)
+
+    # ------------------------------------------------------------ trimming / splitting
+    def _strip_pred(self, chars):
+        if chars is None:
+            return SStr.is_space
+        codes = [ord(c) for c in chars]
+        return lambda c: SStr.char_in(c, codes)
+
+    def lstrip(self, chars=None):
+        p = self._strip_pred(chars)
+        i = 0
+        while i < len(self.items) and p(self.items[i]):
+            i += 1
+        return SStr.mk(self.items[i:], self.is_bytes)
+
+    def rstrip(self, chars=None):
+        p = self._strip_pred(chars)
+        j = len(self.items)
+        while j > 0 and p(self.items[j - 1]):
+            j -= 1
+        return SStr.mk(self.items[:j], self.is_bytes)
+
+    def strip(self, chars=None):
+        r = self.lstrip(chars)
+        return r.rstrip(chars) if isinstance(r, SStr) else r.strip(chars)
+
+    def split(self, sep=None, maxsplit=-1):
+        out = []
+        if sep is None:
+            cur = []
+            for c in self.items:
+                if SStr.is_space(c):
+                    if cur:
+                        out.append(SStr.mk(cur, self.is_bytes))
+                        cur = []
+                else:
+                    cur.append(c)
+            if cur:
+                out.append(SStr.mk(cur, self.is_bytes))
+            return out
+        sep = SStr.lift(sep)
+        i = 0
+        start = 0
+        n = 0
+        while i <= len(self.items) - len(sep.items):
+            if (maxsplit < 0 or n < maxsplit) and self._match_at(i, sep):
+                out.append(SStr.mk(self.items[start:i], self.is_bytes))
+                i += len(sep.items)
+                start = i
+                n += 1
+            else:
+                i += 1
+        out.append(SStr.mk(self.items[start:], self.is_bytes))
+        return out
+
+    def splitlines(self):
+        return [p for p in self.split('\n')]
+
+    def replace(self, old, new, count=-1):
+        old = SStr.lift(old)
+        new = SStr.lift(new)
+        if len(old.items) == 0:
+            raise Unsupported('replace of the empty string')
+        out = []
+        i = 0
+        n = 0
+        while i < len(self.items):
+            if (count < 0 or n < count) and self._match_at(i, old):
+                out.extend(new.items)
+                i += len(old.items)
+                n += 1
+            else:
+                out.append(self.items[i])
+                i += 1
+        return SStr.mk(out, self.is_bytes)
+
+    # ------------------------------------------------------------ case
+    def upper(self):
+        return SStr.mk([c.upper() if not _is_sym(c) else z3.If(z3.And(c >= 97, c <= 122), c - 32, c) for c in self.items], self.is_bytes)
+
+    def lower(self):
+        return SStr.mk([c.lower() if not _is_sym(c) else z3.If(z3.And(c >= 65, c <= 90), c + 32, c) for c in self.items], self.is_bytes)
+
+    def title(self):
+        raise Unsupported('title() of a symbolic string')
+
+    def isdigit(self):
+        return len(self.items) > 0 and all(SStr.char_in(c, range(48, 58)) for c in self.items)
+
+    # ------------------------------------------------------------ bytes <-> str
+    def decode(self, *a, **k):
+        return SStr.mk(self.items, False)
+
+    def encode(self, *a, **k):
+        return SStr.mk(self.items, True)
+
+    def format(self, *args, **kw):
+        return format_string(self, args, kw)
+
+    def join(self, parts):
+        return join_strings(self, parts)
 
 
+# ------------------------------------------------------------------------------------------ conversions
+def to_str(x):
+    if isinstance(x, SStr):
+        return SStr.mk(x.items, False) if x.is_bytes else x
+    if hasattr(x, 'digits') and isinstance(x, Z):
+        return x.digits
+    if isinstance(x, (Z, BV)):
+        t = z3.simplify(x.z3() if isinstance(x, Z) else x.term)
+        if z3.is_int_value(t):
+            return builtins.str(t.as_long())
+        if isinstance(x, BV) and z3.is_bv_value(t):
+            return builtins.str(t.as_signed_long() if x.signed else t.as_long())
+        return render_int(x if isinstance(x, Z) else x.as_Z())
+    if isinstance(x, R) and x.is_concrete():
+        return builtins.str(float(x.v))
+    if isinstance(x, (list, tuple)):
+        raise Unsupported('str() of a container holding symbolic values')
+    if isinstance(x, Sym):
+        raise Unsupported('str() of a symbolic %s' % type(x).__name__)
+    return builtins.str(x)
+
+
+def render_int(z, width=None):
+    """decimal rendering of a symbolic int: forks on sign and number of digits (domain must be small)."""
+    c = core.ctx()
+    v = z.z3()
+    neg = builtins.bool(B(v < 0))
+    mag = -v if neg else v
+    nd = 1
+    while not builtins.bool(B(mag < 10 ** nd)):
+        nd += 1
+        if nd > 20:
+            raise Unsupported('integer too wide to render')
+    digits = []
+    for k in range(nd - 1, -1, -1):
+        d = (mag / (10 ** k)) % 10
+        digits.append(z3.simplify(d + 48))
+    items = (['-'] if neg else []) + [chr(t.as_long()) if z3.is_int_value(t) else t for t in digits]
+    return SStr.mk(items)
+
+
+def to_int(s, base=10):
+    """python int(str): surrounding whitespace allowed, optional sign, digits; else ValueError."""
+    s = SStr.lift(s)
+    t = s.strip()
+    t = SStr.lift(t)
+    items = list(t.items)
+    if not items:
+        raise ValueError("invalid literal for int() with base 10: ''")
+    neg = False
+    if SStr.char_eq(items[0], '-'):
+        neg = True
+        items = items[1:]
+    elif SStr.char_eq(items[0], '+'):
+        items = items[1:]
+    if not items:
+        raise ValueError('invalid literal for int()')
+    val = z3.IntVal(0)
+    conc = 0
+    allc = True
+    for c in items:
+        if not SStr.char_in(c, range(48, 58)):
+            if _is_sym(c) is False and c == '_':
+                raise ValueError('invalid literal for int()')
+            raise ValueError('invalid literal for int() with base 10')
+        if _is_sym(c):
+            allc = False
+            val = val * 10 + (c - 48)
+        else:
+            val = val * 10 + (ord(c) - 48)
+            conc = conc * 10 + (ord(c) - 48)
+    if allc:
+        return Z(-conc if neg else conc)
+    return Z(z3.simplify(-val if neg else val))
+
+
+def to_float(s):
+    s = SStr.lift(s)
+    if s.has_sym():
+        raise Unsupported('float() of a symbolic string')
+    return float(''.join(s.items))
+
+
+# ------------------------------------------------------------------------------------------ formatting
+def _fmt_value(v, conv, spec):
+    if isinstance(v, SStr):
+        if spec not in ('', 's'):
+            raise Unsupported('format spec %r on a symbolic string' % spec)
+        return to_str(v)
+    if isinstance(v, (Z, BV)):
+        if spec in ('', 'd'):
+            return to_str(v)
+        m = None
+        import re as _re
+        m = _re.fullmatch(r'0?(\d+)d', spec)
+        if m:
+            s = to_str(v)
+            w = int(m.group(1))
+            pad = '0' if spec.startswith('0') else ' '
+            if len(s) < w:
+                s = SStr.mk(tuple(pad * (w - len(s))) + SStr.lift(s).items) if isinstance(s, SStr) else s.rjust(w, pad)
+            return s
+        raise Unsupported('format spec %r on a symbolic int' % spec)
+    if isinstance(v, Sym):
+        raise Unsupported('formatting of a symbolic %s' % type(v).__name__)
+    if conv == 'r':
+        v = repr(v)
+    elif conv == 's':
+        v = builtins.str(v)
+    return format(v, spec)
+
+
+def format_string(fmt, args, kw):
+    fmt_s = SStr.lift(fmt)
+    if fmt_s.has_sym():
+        raise Unsupported('symbolic format string')
+    fmt = ''.join(fmt_s.items)
+    out = []
+    auto = 0
+    for lit, field, spec, conv in _string.Formatter().parse(fmt):
+        out.extend(lit)
+        if field is None:
+            continue
+        if field == '':
+            v = args[auto]
+            auto += 1
+        elif field.isdigit():
+            v = args[int(field)]
+        else:
+            name = field.split('.')[0].split('[')[0]
+            v = kw[name] if name in kw else None
+            if field != name:
+                raise Unsupported('attribute/index lookup in a format field with symbolic arguments')
+        piece = _fmt_value(v, conv, spec or '')
+        out.extend(SStr.lift(piece).items if isinstance(piece, (SStr, str)) else builtins.str(piece))
+    return SStr.mk(out)
+
+
+def join_strings(sep, parts):
+    sep = SStr.lift(sep)
+    out = []
+    first = True
+    for p in parts:
+        p2 = SStr.lift(p)
+        if p2 is None:
+            raise TypeError('sequence item: expected str instance')
+        if not first:
+            out.extend(sep.items)
+        out.extend(p2.items)
+        first = False
+    return SStr.mk(out, sep.is_bytes)
+
+
+def str_method(obj, name, *args, **kw):
+    """a method of a CONCRETE str/bytes called with symbolic arguments"""
+    if name == 'format':
+        return format_string(obj, args, kw)
+    if name == 'join':
+        return join_strings(obj, list(args[0]))
+    s = SStr(tuple(obj if isinstance(obj, str) else bytes(obj).decode('latin-1')), not isinstance(obj, str))
+    if hasattr(s, name):
+        return getattr(s, name)(*args, **kw)
+    raise Unsupported('str.%s with symbolic arguments' % name)
+
+
+def fstr(parts):
+    out = []
+    for p in parts:
+        if isinstance(p, tuple):
+            v, conv, spec = p
+            piece = _fmt_value(v, {ord('r'): 'r', ord('s'): 's'}.get(conv), spec)
+            out.extend(SStr.lift(piece).items)
+        else:
+            out.extend(p)
+    return SStr.mk(out)
+
+
+def percent_format(fmt, arg):
+    args = arg if isinstance(arg, tuple) else (arg,)
+    out = []
+    i = 0
+    k = 0
+    while i < len(fmt):
+        c = fmt[i]
+        if c == '%' and i + 1 < len(fmt):
+            j = i + 1
+            while fmt[j] in '0123456789-+ #.':
+                j += 1
+            code = fmt[j]
+            if code == '%':
+                out.append('%')
+            else:
+                v = args[k]
+                k += 1
+                if isinstance(v, (SStr, Z, BV)) and code in 'sd':
+                    out.extend(SStr.lift(to_str(v)).items)
+                elif isinstance(v, Sym):
+                    raise Unsupported('%-formatting of a symbolic value')
+                else:
+                    out.extend(('%' + fmt[i + 1:j + 1]) % v)
+            i = j + 1
+        else:
+            out.append(c)
+            i += 1
+    return SStr.mk(out)
+
+
+# ------------------------------------------------------------------------------------------ containers
 def contains(container, item):
+    if isinstance(container, SStr):
+        return container.find(item) >= 0
+    if isinstance(item, SStr):
+        if isinstance(container, (str, bytes)):
+            return SStr.lift(container).find(item) >= 0
+        if isinstance(container, dict):
+            return _dict_find(container, item) is not _MISSING
+        if isinstance(container, (list, tuple, set, frozenset)):
+            for e in container:
+                if isinstance(e, (str, bytes, SStr)) and builtins.bool(item == e):
+                    return True
+            return False
+        return NOT_HANDLED
+    if isinstance(container, (list, tuple)) and any(isinstance(e, SStr) for e in container):
+        for e in container:
+            if isinstance(e, SStr):
+                if isinstance(item, (str, bytes)) and builtins.bool(e == item):
+                    return True
+            elif e == item:
+                return True
+        return False
+    if isinstance(container, dict) and isinstance(item, (str, bytes)) and any(isinstance(k, _Key) for k in container):
+        return _dict_find(container, item) is not _MISSING
     return NOT_HANDLED
+
+
+class _Key(object):
+    """dict key wrapper for a symbolic string (identity hash; lookups go through _dict_find)"""
+    __slots__ = ('s',)
+
+    def __init__(self, s):
+        self.s = s
+
+    def __repr__(self):
+        return '_Key(%r)' % (self.s,)
+
+
+_MISSING = object()
+
+
+def _dict_find(d, key):
+    for k in list(d.keys()):
+        kk = k.s if isinstance(k, _Key) else k
+        if isinstance(kk, (str, bytes, SStr)):
+            if isinstance(key, SStr) or isinstance(kk, SStr):
+                if builtins.bool(SStr.lift(kk) == key):
+                    return k
+            elif kk == key:
+                return k
+    return _MISSING
+
+
+def dict_get(d, key):
+    k = _dict_find(d, key)
+    if k is _MISSING:
+        raise KeyError(key)
+    return dict.__getitem__(d, k)
+
+
+def dict_set(d, key, val):
+    k = _dict_find(d, key)
+    if k is _MISSING:
+        k = _Key(key)
+    dict.__setitem__(d, k, val)
+
+
+def dict_del(d, key):
+    k = _dict_find(d, key)
+    if k is _MISSING:
+        raise KeyError(key)
+    dict.__delitem__(d, k)
 
 
 def container_method(obj, name, *a, **k):
+    if isinstance(obj, dict) and a and isinstance(a[0], SStr):
+        if name == 'get':
+            kk = _dict_find(obj, a[0])
+            return (a[1] if len(a) > 1 else None) if kk is _MISSING else dict.__getitem__(obj, kk)
+    if isinstance(obj, list) and name in ('index', 'count') and (isinstance(a[0], SStr) or any(isinstance(e, SStr) for e in obj)):
+        if name == 'index':
+            for i, e in enumerate(obj):
+                if builtins.bool(SStr.lift(e) == a[0]) if isinstance(e, (str, SStr)) else e == a[0]:
+                    return i
+            raise ValueError('not in list')
+        return builtins.sum(1 for e in obj if (builtins.bool(SStr.lift(e) == a[0]) if isinstance(e, (str, SStr)) else e == a[0]))
     return NOT_HANDLED
+
+
+# ------------------------------------------------------------------------------------------ numpy string dtypes
+def cast_str_elem(val, base):
+    """store into an S<n>/U<n> field: truncated to n characters (numpy does so silently)."""
+    n = base.itemsize if base.kind == 'S' else base.itemsize // 4
+    s = SStr.lift(val if not isinstance(val, (Z, BV)) else to_str(val))
+    if s is None:
+        raise Unsupported('cannot store %r into a string field' % type(val).__name__)
+    return SStr.mk(s.items[:n], base.kind == 'S')
+
+
+def cast_str_array(arr, base):
+    out = np.empty(arr.shape, dtype=object)
+    flat = out.reshape(-1)
+    for i, e in enumerate(arr.reshape(-1)):
+        flat[i] = cast_str_elem(e, base)
+    return out
+
+
+def sym_chars(ctx, name, n, exclude=''):
+    """n symbolic characters in {TAB} + printable ASCII 32..126 minus `exclude`."""
+    items = []
+    for i in range(n):
+        t = z3.Int('%s_%d' % (name, i))
+        ctx.inputs['%s_%d' % (name, i)] = t
+        ctx.add(z3.Or(t == 9, z3.And(t >= 32, t <= 126)))
+        for ch in exclude:
+            ctx.add(t != ord(ch))
+        items.append(t)
+    return items
